@@ -21,6 +21,28 @@ def worker(args, scratch):
     try:
         callers = [w.identity("root", "helper", []), w.identity("alice", "tool", []), w.identity("gidzero", "x", [])]
         keys = {}
+        import threading
+        slow_results = []
+
+        def slow_keepalive(ci):
+            # one keep-alive connection, several requests with seconds passing in between: each must carry the proxy's CURRENT time
+            try:
+                who = callers[ci % len(callers)]
+                c = w.open("other", who)
+                for k in range(3):
+                    vid = "c05-slow-%d-%d-%d" % (args["shard"], ci, k)
+                    t0 = time.time()
+                    c.send(rawhttp.build_request("GET", "/slow/%d" % k, [("x-vf-id", vid), ("x-ms-azure-host-date", "Mon, 01 Jan 2001 00:00:00 GMT")]))
+                    c.read_response()
+                    slow_results.append((vid, t0, time.time(), who))
+                    if k < 2:
+                        time.sleep(3.2)
+                c.close()
+            except Exception as e:  # noqa
+                slow_results.append(("error", repr(e), 0, None))
+        slow_threads = [threading.Thread(target=slow_keepalive, args=(i,)) for i in range(3)]
+        for t in slow_threads:
+            t.start()
         for n in range(args["requests"]):
             if n % 97 == 0:
                 if r.random() < 0.7:
@@ -111,6 +133,26 @@ def worker(args, scratch):
                 if len(res["samples"]) < 2:
                     res["samples"].append(wit)
             bump("spoofed_copies", len(spoofs))
+        for t in slow_threads:
+            t.join()
+        for vid, t0, t1, who in slow_results:
+            if vid == "error":
+                res["violations"].append(["slow-keepalive-exchange-failed", {"err": t0}]); continue
+            res["evaluations"] += 1
+            ups = w.upstream(vid)
+            dates = ups[0].headers_named("x-ms-azure-host-date") if ups else []
+            ok = False
+            if len(dates) == 1:
+                try:
+                    ts = calendar.timegm(email.utils.parsedate(dates[0].decode()))
+                    ok = t0 - 2 <= ts <= t1 + 2
+                except Exception:
+                    ok = False
+            bump("requests_on_long_lived_keepalive_connections")
+            res["nontrivial"].append("slow-" + vid)
+            if not ok:
+                res["violations"].append(["date-header-not-current", {"id": vid, "dates": [d.decode("latin-1") for d in dates], "sent_at": time.strftime("%H:%M:%S", time.gmtime(t0)),
+                                                                      "history": "third/second request on a keep-alive connection, 3.2 s after the previous one"}])
         for p in w.shim.panics():
             res["violations"].append(["panic:%s" % p.get("location"), p])
     finally:
